@@ -153,6 +153,21 @@ CHECKS = {
  ),
 }
 
+# Widenings made after the first version of each check (appended to the level text).
+ADD = {
+ "C01": " Later widenings: identifier-stress families; deep-type families (OneOf unions, 2-3 levels of nesting, Reference); HTTP-level validation and streaming-validation families; structural features (1-2 service base paths x route orders, API-level base path, streaming endpoints with two routes, methods sharing one payload with Body(attr)); cross-service designs with same-named methods; dual-transport (HTTP+gRPC) secured methods; degenerate and half-open ranges, patterns containing %, backslash, backtick.",
+ "C02": " Later widenings: explicitly empty collections must arrive empty in JSON bodies; typed array defaults; path values that are path syntax (., ..); deep-type payloads (unions, nested collections); service/API base paths; operation sequences on one client (all sequences of length <= 3 over mixed unary/streaming services, each call compared with the same call alone).",
+ "C03": " Later widenings: ordered pairs of tag-selected response shapes; deep-type results; operation sequences on one client (response side); explicitly empty collections in bodies.",
+ "C04": " Later widenings: validations inherited through Extend (7 required-list shapes) and Reference; validations written on the HTTP mapping (endpoint/service/API level Param, Header, Cookie, path parameter) alone and together with attribute rules; streamed messages (all sequences <= 3 over {valid, invalid}); 21 deep positions (union alternatives, fields below arrays/maps of user types, array of arrays); degenerate/half-open/open ranges; patterns with %, backslash, backtick; cross-service same-named methods.",
+ "C06": " Later widenings: credential mapping (explicit/implicit) x request body shape (Body(attr), inline body); the same secured method exposed over HTTP and gRPC.",
+ "C08": " Later widenings: type-level attribute views overridden (or not) by parent views; three nested attributes of one result type (adjacent / separated) x all 27 override vectors over {none, tiny, full}; self-recursive result type with view overrides; views fixed in the design on types whose default view omits a required attribute (single and collection).",
+ "C12": " Later widenings: the dangling-reference family has a 'kind of the type referred into' dimension (14 kinds x 26 contexts); a requirement/credential family (transport x level x 45 requirement shapes x payload kind x every subset of the six credential attributes).",
+ "C14": " Later widenings: cross-service same-named methods (schema de-duplication), the views family (fixed and dynamic views), degenerate and half-open ranges.",
+ "C16": " Later widenings: observers placed BEFORE routing (middleware calling ResolvePattern and Vars before next) and a literal-encoding universe (non-ASCII / space literals, two client encoders) - what the pre-routing observer is told must equal what the handler is told.",
+ "C19": " Later widenings: configured header name spellings x sent spellings; byte-wise truncation reference with multi-byte and invalid UTF-8 inbound values at every limit; the underlying ResponseWriter as part of the environment (every cut-off point of a short writer, 1xx/204/304 and beyond-Content-Length refusals through a real net/http server).",
+ "C20": " Later widenings: request matrix {json, xml, gob, text/plain, text/html} x {ok, invalid, declared, undeclared, 404, 405} with sequential prefix operations; sync.Pool Get as a data choice point (any pooled object or a fresh one); uses of package-level objects of uninstrumented types as accesses of the race oracle; gRPC middleware family (interceptors without a network, shutdown as a thread).",
+}
+
 NOT_YET = {}
 
 def main():
@@ -169,7 +184,7 @@ def main():
                 "evidence_file": f"/verif/evidence/{i}.json",
                 "replay_cmd_template": f"./run.sh {i} quick --replay {{path}}",
                 "engine": c["engine"],
-                "level_claimed": {"category": "model_checking", "text": c["text"], "design_ref": c["design_ref"]},
+                "level_claimed": {"category": "model_checking", "text": c["text"] + ADD.get(i, ""), "design_ref": c["design_ref"]},
                 "level_note": c["note"],
                 "technique": c["technique"],
             })
